@@ -134,9 +134,9 @@ Proof.
   - reflexivity.
   - apply Permutation_nil in Pl. discriminate Pl.
   - apply Permutation_sym in Pl. apply Permutation_nil in Pl. discriminate Pl.
-  - rewrite dedup_head in *.
+  - rewrite (dedup_head t0 rest), (dedup_head t0' rest') in *.
     destruct (dedup [t0] rest) as [|a1 d1] eqn:D; destruct (dedup [t0'] rest') as [|a1' d1'] eqn:D'.
-    + destruct (C t0 (or_introl eq_refl)) as [y [[<-|Hy] E]]; [exact E|rewrite D' in Hy; destruct Hy].
+    + destruct (C t0 (or_introl eq_refl)) as [y [[<-|Hy] E]]; [exact E|destruct Hy].
     + rewrite (dedup_rest_nil_perm t0 rest t0' rest' Wl Pl D) in D'. discriminate D'.
     + rewrite (dedup_rest_nil_perm t0' rest' t0 rest Wl' (Permutation_sym Pl) D') in D. discriminate D.
     + apply G; assumption.
@@ -299,8 +299,7 @@ Proof.
       * pose proof (IH _ _ (all_entries_wf ts W) (all_values_perm ts ts' W P)) as X.
         destruct (shrink k fuel (flat_map snd (required_of ts) ++ flat_map snd (optional_of ts))) as [T|];
         destruct (shrink k fuel (flat_map snd (required_of ts') ++ flat_map snd (optional_of ts'))) as [T'|];
-          cbn [relQ option_map] in *; try exact X.
-        cbn [equivb]. rewrite X, N.eqb_refl. reflexivity.
+          cbn [relQ option_map] in *; exact X.
       * rewrite <- (keys_disjoint_same ts ts' W S).
         destruct (negb (keys_disjoint (required_of ts) (optional_of ts))); [exact I|].
         assert (HR : relQ_fields eqQ
@@ -346,8 +345,7 @@ Proof.
            pose proof (IH _ _ W2 P2) as X.
            destruct (shrink k fuel (filter (fun a => negb (is_tany a)) (map list_arg (t0 :: rest)))) as [T|];
            destruct (shrink k fuel (filter (fun a => negb (is_tany a)) (map list_arg (t0' :: rest')))) as [T'|];
-             cbn [relQ option_map] in *; try exact X.
-           cbn [equivb]. exact X.
+             cbn [relQ option_map] in *; exact X.
         -- cbn [relQ].
            change (td2dict t0 :: map td2dict rest) with (map td2dict (t0 :: rest)).
            change (td2dict t0' :: map td2dict rest') with (map td2dict (t0' :: rest')).
